@@ -26,8 +26,11 @@ harness is the kernel) and the pending read is compared with the reference model
 EITHER classes (only safety asserted, labelled): `buffer_full_either` - small max_buffer_size and
 more unconsumed data delivered than it holds (the statement is silent on read-buffer overflow;
 Tornado documents "spurious failures" near the limit); `unsat_and_end_same_quantum` - max_bytes
-exceeded and the stream end delivered together: real_error may be either cause.  The program stops
-at the first failed read (what later reads on a closed stream do belongs to C13).
+exceeded and the stream end delivered together: real_error may be either cause.  After the first failed
+read the stream is closed and the program keeps reading it: every later read either returns exactly the
+model's bytes out of what had been pulled from the transport before the close (a failed read_into's
+received prefix stays buffered) or fails with StreamClosedError (EITHER: it may fail although satisfiable,
+see C13; `post_failure_read_raises_unsatisfiable`); it never returns short or b"" for n > 0.
 
 Corrections: (1) a read that is provably unsatisfiable within max_bytes (no continuation of the buffered
 bytes can produce a delimiter ending within max_bytes - e.g. max_bytes < len(delimiter) or max_bytes bytes
@@ -61,6 +64,12 @@ Sensitivity (quick tier, seed 1, scratch copies of tornado/iostream.py; every mu
       len(delimiter)-1/+1 are generated, and relative limits may now come out as 0; model for 0: any
       buffered byte is unsatisfiable -> close with UnsatisfiableReadError, empty buffer -> pending;
       labels maxbytes_zero / maxbytes_one / maxbytes_eq_delimiter_len[_minus1])
+  M13 _signal_closed: statements of the "keep the bytes a failing read_into had received" block reordered, so
+      _read_buffer_size is taken from the caller's bytearray (requested size) -> later reads on the closed
+      stream return short / b""      -> seeds 1,2,3: C11.returned_unsatisfied (the program now CONTINUES
+      after the first failed read against the closed stream - reads of every kind, model = bytes pulled
+      before the close minus bytes handed out, may fail but never return short; one case in five ends with
+      read_into(big) receiving only a prefix, then reads larger than the prefix, others, and a 1-byte read)
   (M9 ``>= next_find_pos`` -> ``>`` survives: it only changes how often the buffer is scanned - equivalent.)
 """
 import collections
@@ -110,6 +119,8 @@ _ORDER = st.lists(st.sampled_from("FFFR"), max_size=40)
 _END_INSIDE = st.sampled_from([False] * 7 + [True] * 3)
 _END_KIND = st.sampled_from(["fin", "fin", "rst"])
 _BOOL = st.booleans()
+_FAIL_INTO_TAIL = st.sampled_from([False, False, False, False, True])
+_BIG = st.sampled_from([2, 3, 5, 12, 64, 100])
 _BLOCKED_WRITE = st.sampled_from([None, None, None, 1, 10, 3000])
 _IDX = st.integers(0, 1000)
 
@@ -118,6 +129,18 @@ _IDX = st.integers(0, 1000)
 def case_s(draw):
     rcs = draw(_RCS)
     specs, data = draw(M.program_and_stream(rcs))
+    if draw(_FAIL_INTO_TAIL):
+        # the program ends with a read_into(big) for which only r < big bytes ever arrive (it fails when the
+        # peer disconnects, having received a prefix), and the application keeps reading the closed stream:
+        # a read of more than the r kept bytes, reads of any kind, and a 1-byte read after the drain
+        big = draw(_BIG)
+        r = draw(st.integers(1, big - 1))
+        more = [("bytes", draw(st.integers(r + 1, big)), False)]
+        others = draw(st.lists(M.read_spec(rcs), max_size=2))
+        tail = [("into", big, False)] + (others + more if draw(_BOOL) else more + others)
+        tail += [draw(st.sampled_from([("bytes", 1, False), ("into", 1, False), ("bytes", 1, True), ("close",)]))]
+        specs = list(specs[:7]) + tail
+        data = data + b"x" * r
     mbs = draw(_MBS)
     order = draw(_ORDER)
     burst = M.burst(rcs)
@@ -259,7 +282,9 @@ async def scenario(ctx, case, labels):
         if st_["fed"] == st_["cursor"] and not st_["ended"]:
             labels.add("read_issued_before_data")
         rd.start = st_["cursor"]
-        rd.issue(s, ALLOWED_RAISE)
+        rd.issue(s, ALLOWED_RAISE + ((UnsatisfiableReadError,) if st_.get("post") else ()))
+        if st_.get("post"):
+            labels.add("read_issued_after_failed_read")
         cur[0] = rd
 
     def account(rd, k):
@@ -305,6 +330,29 @@ async def scenario(ctx, case, labels):
             rd = cur[0]
             if rd is None:
                 return
+            if st_.get("post"):
+                # a read already failed: the stream is closed, the application keeps reading.  Only what the
+                # stream had pulled from the transport is buffered; a read succeeds only with exactly the
+                # model's bytes (never short, never b"" for n > 0) and may otherwise fail.
+                if isinstance(rd.raised, UnsatisfiableReadError):
+                    labels.add("post_failure_read_raises_unsatisfiable")
+                    cur[0] = None
+                    continue
+                rem = data[st_["cursor"] : st_["pulled_at_close"]]
+                status, k = M.verdict(ctx, P, rd, rem, True, [s.error], s, False,
+                                      {"cursor": st_["cursor"], "after_failed_read": st_["failed_spec"], "rcs": case["rcs"]},
+                                      may_fail=True)
+                if status == "pending":
+                    return
+                cur[0] = None
+                if status == "ok":
+                    ctx.label("reads_ok_after_failed_read")
+                    labels.add("post_failure_read_ok")
+                    results.append(bytes(rd.buf[:k]) if rd.spec[0] == "into" else rd.fut.result())
+                    st_["cursor"] += k
+                else:
+                    labels.add("post_failure_read_failed")
+                continue
             rem = data[st_["cursor"] : st_["fed"]]
             overflow_ok = st_["overflow"]
             errs = [st_["end_error"]]
@@ -336,7 +384,14 @@ async def scenario(ctx, case, labels):
                 else:
                     labels.add("fail_at_end")
             st_["stopped"] = True
-            raise Stop()
+            if status == "either" or st_["overflow"] or not s.closed():
+                raise Stop()
+            # keep issuing the rest of the program against the closed stream
+            st_["post"] = True
+            st_["failed_spec"] = rd.spec
+            st_["pulled_at_close"] = st_["fed"] - sum(len(x) for x in s.inbound)
+            if rd.spec[0] == "into" and st_["pulled_at_close"] > st_["cursor"]:
+                labels.add("failed_read_into_had_received_prefix")
 
     try:
         for step in case["steps"]:
